@@ -358,7 +358,7 @@ def corr_range(hbin, wd, tier, seed):
 
 
 def check_C03(tier, seed, replay=None):
-    return ref_family_check("C03", tier, seed, [("range", 3000)], [("range", 60000)], corr=corr_range)
+    return ref_family_check("C03", tier, seed, [("range", 3000), ("epoch:range", 500)], [("range", 60000), ("epoch:range", 10000)], corr=corr_range)
 
 
 def _corr_generic(cmd, prop, model_text, per_quick, per_thorough, shards_quick=8, shards_thorough=32):
@@ -409,8 +409,8 @@ def check_C10(tier, seed, replay=None):
 
 def check_C07(tier, seed, replay=None):
     return ref_family_check("C07", tier, seed,
-                            [("instants", "nostartend", 1500), ("instants", "range", 400)],
-                            [("instants", "nostartend", 30000), ("instants", "range", 8000), ("instants", "agg", 8000)])
+                            [("instants", "nostartend", 1500), ("instants", "range", 400), ("instants", "epoch:nostartend", 300)],
+                            [("instants", "nostartend", 30000), ("instants", "range", 8000), ("instants", "agg", 8000), ("instants", "epoch:nostartend", 8000)])
 
 
 def check_C11(tier, seed, replay=None):
@@ -426,22 +426,22 @@ def check_C19(tier, seed, replay=None):
 
 
 def check_C01(tier, seed, replay=None):
-    return ref_family_check("C01", tier, seed, [("", 5000), ("deep", 2000), ("noties", 1500)],
-                            [("", 100000), ("deep", 40000), ("noties", 30000), ("func", 20000), ("bin", 20000), ("agg", 20000), ("range", 20000)])
+    return ref_family_check("C01", tier, seed, [("", 5000), ("deep", 2000), ("noties", 1500), ("epoch:", 800)],
+                            [("", 100000), ("deep", 40000), ("noties", 30000), ("func", 20000), ("bin", 20000), ("agg", 20000), ("range", 20000), ("epoch:", 20000), ("epoch:deep", 10000)])
 
 
 def check_C04(tier, seed, replay=None):
     corr = _corr_generic("aggcases", "C04", "Agg.group_labels / assign_groups / aggregate (count table) + Select.select_step vs the engine "
                          "on count by/without (labels) (selector)", 14, 120, shards_quick=16)
-    return ref_family_check("C04", tier, seed, [("agg", 4000)], [("agg", 80000), ("noties", 20000)], corr=corr)
+    return ref_family_check("C04", tier, seed, [("agg", 4000), ("epoch:agg", 500)], [("agg", 80000), ("noties", 20000), ("epoch:agg", 10000)], corr=corr)
 
 
 def check_C05(tier, seed, replay=None):
-    return ref_family_check("C05", tier, seed, [("bin", 4000)], [("bin", 80000), ("deep", 20000)])
+    return ref_family_check("C05", tier, seed, [("bin", 4000), ("epoch:bin", 600)], [("bin", 80000), ("deep", 20000), ("epoch:bin", 15000)])
 
 
 def check_C06(tier, seed, replay=None):
-    return ref_family_check("C06", tier, seed, [("func", 4000)], [("func", 80000), ("deep", 20000)])
+    return ref_family_check("C06", tier, seed, [("func", 4000), ("epoch:func", 600)], [("func", 80000), ("deep", 20000), ("epoch:func", 15000)])
 
 
 def check_C18(tier, seed, replay=None):
